@@ -110,7 +110,12 @@ class World:
         return q
 
     def tick(self):
+        """Every queue / process operation of the parent costs `opcost` virtual milliseconds (seeded per run): in a
+        real deployment time passes between a get() that timed out and the is_alive() that follows it."""
         self.ops += 1
+        self.now += self.plan.get("opcost", 0)
+        if self.ops > 400000:
+            raise SimBusyWait(f"{self.ops} queue/process operations")
         if self.ops - self.last_progress_ops > 20000:
             raise SimBusyWait(f"{self.ops - self.last_progress_ops} queue/process operations without progress")
 
@@ -351,6 +356,8 @@ class SimQueue:
 
 
 DELAYS = {
+    # worker events placed next to the parent's poll boundaries (poll period 1 s): exits right after a get() timed out
+    "race": [1000, 0, 1, 2, 3, 5, 7, 999, 1001, 1003, 2000],
     "merge": [0],  # everything available at once: the delivery order is a pure seeded merge
     "jitter": [0, 1, 2, 5, 17, 250],
     "slow": [0, 1000, 5000, 60000],
